@@ -1,5 +1,6 @@
 import PdfModel.Lemmas.EncEncode
 import PdfModel.Lemmas.EncCheck
+import PdfModel.Lemmas.LzwCheck
 
 /-!
 # C05 — stream filters decode what standard encoders produce; broken data never panics
@@ -8,8 +9,11 @@ Statement side: `Spec/Codecs.lean` (encoders as relations: every text a conformi
 Model side: `Model/Enc.lean` (mirror of `pdf/src/enc.rs` after the `fix:` commits of this package, tied to
 the code by the C05 correspondence streams).
 
-Third-party code (libflate, weezl) is the parameter `X : Ext`. What is assumed about it appears as a
-hypothesis *inside* `EncodesStep`: "the compressed bytes `y` make the zlib decoder return `pre`" etc.
+Third-party code is the parameter `X : Ext`; after the LZW deepening only **Flate** (libflate's inflate,
+zlib and raw framing) is left as a hypothesis *inside* `EncodesStep`: "the compressed bytes `y` make the
+zlib decoder return `pre`". The LZW decoder weezl runs is modelled (`Model/Lzw.lean`), its encoder side is
+the relation `LzwSpec.EncodesToLzw` (`Spec/Lzw.lean`), `lzw_decode_of_encodes` is a theorem, and the tie to
+the crate is a correspondence obligation (streams `c05.lzw.decode*`, `c16.lzw.encode`).
 -/
 
 namespace Enc
@@ -107,6 +111,42 @@ theorem unpredict_predict_tiff (p : Params) (bpp S : Nat) (hp : p.predictor = 2)
     unpredict (rows.map (tiffDiffRow p.colors.toNat p.bpc.toNat p.columns.toNat)).flatten p = .ok rows.flatten :=
   unpredict_tiff p bpp S hp hg rows hrows
 
+/-! ## LZW (ISO 32000-1 §7.4.4): the decoder weezl runs, against every conforming encoder -/
+
+/-- **LZW.** For every byte string, both EarlyChange values, every choice of phrases from the encoder's
+    table (not only the longest match), clear-table codes anywhere, anything after the EOD code: the decoder
+    returns the original bytes. The proof is the classical simulation: the decoder's table is the encoder's
+    table delayed by one entry (`Lzw.Sim`), the delayed entry being exactly what the cScSc / KwKwK code
+    (`code = next_code`) refers to; weezl's stateful code-size switch equals the closed form of the
+    specification (`Lzw.bump_eq`), the table stops growing at entry 4095. -/
+theorem lzw_decode_of_encodes (early : Bool) {bs text : Bytes} (h : LzwSpec.EncodesToLzw early bs text) :
+    Lzw.decode early text = .ok bs :=
+  Lzw.decode_of_encodesToLzw early h
+
+/-- **LZW, error clause.** Arbitrary bytes (invalid codes, missing EOD, truncated codes): an error or a
+    value, never a panic, and the fuel `8·len + 1` always suffices. -/
+theorem lzw_decode_never_panics (early : Bool) (data : Bytes) : (Lzw.decode early data).Returns :=
+  Lzw.decode_returns early data
+
+/-- the executable membership test the driver runs on LZW streams (the harness's own encoder with random
+    clear codes; weezl's encoder output in C16) is sound -/
+theorem lzw_certificate_sound (early : Bool) (bs text : Bytes) (h : LzwSpec.checkLzw early bs text = true) :
+    Lzw.decode early text = .ok bs :=
+  Lzw.decode_of_encodesToLzw early (LzwSpec.checkLzw_sound h)
+
+/-- non-vacuity: the example of ISO 32000-1 §7.4.4.2 is a conforming encoding (EarlyChange 1) … -/
+example : LzwSpec.checkLzw true [45, 45, 45, 45, 45, 65, 45, 45, 45, 66]
+    [0x80, 0x0B, 0x60, 0x50, 0x22, 0x0C, 0x0C, 0x85, 0x01] = true := by decide
+/-- … decoded by the model, with its KwKwK code 258 right after the first `45` … -/
+example : Lzw.decode true [0x80, 0x0B, 0x60, 0x50, 0x22, 0x0C, 0x0C, 0x85, 0x01]
+    = .ok [45, 45, 45, 45, 45, 65, 45, 45, 45, 66] := by decide
+/-- … a non-greedy encoding with a clear code in the middle conforms too … -/
+example : LzwSpec.checkLzw false [7, 7, 7] (LzwSpec.packBits 64 (LzwSpec.bitsOfCodes
+    [(9, 256), (9, 7), (9, 7), (9, 256), (9, 7), (9, 257)])) = true := by decide
+/-- … and damaged streams are errors: a code beyond the table, a missing EOD -/
+example : Lzw.decode true [0x80, 0x0B, 0xFF, 0xFF] = .err := by decide
+example : Lzw.decode true [0x80, 0x0B, 0x60] = .err := by decide
+
 /-! ## One filter, then chains -/
 
 /-- `pre` is what a conforming encoder hands to the compressor for the data `x` under parameters `p` -/
@@ -127,7 +167,8 @@ theorem unpredict_of_predicts {p : Params} {x pre : Bytes} (h : Predicts p x pre
 /-- `y` is a conforming encoding of `x` for the filter `f`. For Flate and LZW the behaviour of the
     third-party decompressor on `y` is the explicit hypothesis (zlib framing: the zlib decoder returns
     the predicted bytes; raw deflate framing: the zlib decoder rejects `y` and the raw decoder returns
-    them; LZW: the decoder with the size switch selected by EarlyChange returns them). -/
+    them). LZW needs no such hypothesis: `y` only has to be a conforming LZW encoding of the predicted
+    bytes for the EarlyChange value of the parameters. -/
 inductive EncodesStep (X : Ext) : Filter → Bytes → Bytes → Prop where
   | hex {x y : Bytes} : EncodesToHex x y → EncodesStep X .asciiHex x y
   | a85 {x y : Bytes} : EncodesTo85 x y → EncodesStep X .ascii85 x y
@@ -136,8 +177,8 @@ inductive EncodesStep (X : Ext) : Filter → Bytes → Bytes → Prop where
       EncodesStep X (.flate p) x y
   | flateRaw {p : Params} {x pre y : Bytes} : Predicts p x pre → X.inflateZlib y = none →
       X.inflateRaw y = some pre → EncodesStep X (.flate p) x y
-  | lzw {p : Params} {x pre y : Bytes} : Predicts p x pre → X.lzw (decide (p.earlyChange ≠ 0)) y = some pre →
-      EncodesStep X (.lzw p) x y
+  | lzw {p : Params} {x pre y : Bytes} : Predicts p x pre →
+      LzwSpec.EncodesToLzw (decide (p.earlyChange ≠ 0)) pre y → EncodesStep X (.lzw p) x y
 
 /-- **One filter**: every decode filter of the dispatch returns the original bytes. -/
 theorem decode_of_encodes {X : Ext} {f : Filter} {x y : Bytes} (h : EncodesStep X f x y) : decode X y f = .ok x := by
@@ -149,7 +190,7 @@ theorem decode_of_encodes {X : Ext} {f : Filter} {x y : Bytes} (h : EncodesStep 
   | flateRaw hp hz hr => simp [decode, flateDecode, hz, hr, unpredict_of_predicts hp]
   | lzw hp hl =>
     simp only [decode, lzwDecode]
-    rw [hl]
+    rw [Lzw.decode_of_encodesToLzw _ hl]
     exact unpredict_of_predicts hp
 
 /-- `y` is `x` encoded for the chain `fs` (the first filter of the list is the outermost encoding,
